@@ -7,6 +7,7 @@ def run(res, a):
         return conc.replay(res, "C02", a.replay)
     vlib.proof_stage(res, "C02")
     conc.run_conc(res, "C02", a.seed, a.tier)
+    conc.run_lockstep(res, "C02", a.seed, a.tier)
     try:
         import tfree_sim
         st = tfree_sim.run_sim(a.seed, 400 if a.tier == "thorough" else 60)
